@@ -1,85 +1,121 @@
 package trzsz
 
+// C05 — the wrapper is transparent whenever no transfer is in progress.
+
 import (
 	"bytes"
 	"io"
+	"sync/atomic"
 )
 
-func verifNondetByte() byte
-func verifNondetBool() bool
-func verifNondetRange(lo, hi int) int
-func verifAssume(bool)
-func verifAssert(bool, string)
-func verifReach(string)
-func verifQuiesce()
-func verifBlockForever()
-
-type zzOnce struct {
-	chunk []byte
-	done  bool
+// zzFeed5: the wrapper's upstream reader: delivers the chunks, then stays silent.
+type zzFeed5 struct {
+	chunks [][]byte
+	idx    int
 }
 
-func (r *zzOnce) Read(p []byte) (int, error) {
-	if !r.done {
-		r.done = true
-		return copy(p, r.chunk), nil
+func (r *zzFeed5) Read(p []byte) (int, error) {
+	if r.idx >= len(r.chunks) {
+		verifBlockForever()
+		return 0, io.EOF
 	}
-	verifBlockForever()
-	return 0, io.EOF
+	n := copy(p, r.chunks[r.idx])
+	r.idx++
+	return n, nil
 }
 
-type zzCap struct {
+type zzCap5 struct {
 	got    []byte
 	writes int
 }
 
-func (w *zzCap) Write(p []byte) (int, error) {
+func (w *zzCap5) Write(p []byte) (int, error) {
 	w.got = append(w.got, p...)
 	w.writes++
 	return len(p), nil
 }
-func (w *zzCap) Close() error { return nil }
+func (w *zzCap5) Close() error { return nil }
 
-const zzL = 24
-
-func zzContains(hay []byte, needle string) bool {
-	for s := 0; s+len(needle) <= len(hay); s++ {
-		m := true
-		for k := 0; k < len(needle); k++ {
-			if hay[s+k] != needle[k] {
-				m = false
-				break
-			}
-		}
-		if m {
-			return true
+func zzSame5(got, want []byte, label string) {
+	verifAssert(len(got) == len(want), label+": bytes lost or duplicated")
+	if len(got) == len(want) {
+		for i := range want {
+			verifAssert(got[i] == want[i], label+": byte changed")
 		}
 	}
-	return false
 }
 
+// remote output short of a genuine trigger / zmodem header reaches the local terminal unmodified, once, in order
 func zzH_C05_out() {
-	chunk := make([]byte, zzL)
+	l := verifBound("L")
+	chunk := make([]byte, l)
 	for i := range chunk {
 		chunk[i] = verifNondetByte()
 	}
-	// near-miss: everything but a complete trigger literal / zmodem header start
+	// anything but a complete trigger literal or a zmodem header start
 	verifAssume(!bytes.Contains(chunk, []byte("::TRZSZ:TRANSFER:")))
 	verifAssume(!bytes.Contains(chunk, []byte("**\x18B0")))
-	want := make([]byte, zzL)
+	want := make([]byte, l)
 	copy(want, chunk)
-	out, in := &zzCap{}, &zzCap{}
-	f := &TrzszFilter{clientOut: out, serverIn: in, serverOut: &zzOnce{chunk: chunk}}
+	out, in := &zzCap5{}, &zzCap5{}
+	chunks := [][]byte{chunk}
+	if verifBound("CUT") != 0 {
+		cut := verifNondetRange(1, l)
+		if cut < l {
+			chunks = [][]byte{chunk[:cut], chunk[cut:]}
+		}
+	}
+	f := &TrzszFilter{clientOut: out, serverIn: in, serverOut: &zzFeed5{chunks: chunks}}
+	f.options.EnableZmodem = verifNondetBool()
+	f.options.EnableOSC52 = verifBound("OSC") != 0
+	go f.wrapOutput()
+	verifQuiesce()
+	zzSame5(out.got, want, "to terminal")
+	verifAssert(len(in.got) == 0, "wrapper wrote to the remote side on its own")
+	verifAssert(f.transfer.Load() == nil, "transfer started without a trigger")
+	verifAssert(f.zmodem.Load() == nil, "zmodem session started without a header")
+	verifReach("passthrough")
+}
+
+// near-miss trigger text: a trigger with one byte of its literal changed passes through untouched
+func zzH_C05_nearMiss() {
+	lit := []byte("\x1b7\x07::TRZSZ:TRANSFER:S:1.1.5:0000000000100\r\n")
+	k := verifNondetRange(3, 19) // position inside "::TRZSZ:TRANSFER:"
+	c := verifNondetByte()
+	verifAssume(c != lit[k])
+	lit[k] = c
+	verifAssume(!bytes.Contains(lit, []byte("::TRZSZ:TRANSFER:")))
+	want := make([]byte, len(lit))
+	copy(want, lit)
+	out, in := &zzCap5{}, &zzCap5{}
+	f := &TrzszFilter{clientOut: out, serverIn: in, serverOut: &zzFeed5{chunks: [][]byte{lit}}}
 	f.options.EnableZmodem = verifNondetBool()
 	go f.wrapOutput()
 	verifQuiesce()
-	verifAssert(len(out.got) == zzL, "output bytes lost or duplicated")
-	if len(out.got) == zzL {
-		for i := range want {
-			verifAssert(out.got[i] == want[i], "output byte changed")
-		}
+	zzSame5(out.got, want, "to terminal")
+	verifAssert(len(in.got) == 0, "wrapper wrote to the remote side on its own")
+	verifReach("near-miss")
+}
+
+// typed input reaches the remote side unmodified, once, in order (no session, no drag detection)
+func zzH_C05_in() {
+	l := verifBound("L")
+	chunk := make([]byte, l)
+	for i := range chunk {
+		chunk[i] = verifNondetByte()
 	}
-	verifAssert(len(in.got) == 0, "wrapper wrote to the server on its own")
-	verifAssert(f.transfer.Load() == nil, "transfer started without a trigger")
-	verifReach("passthrough")
+	want := make([]byte, l)
+	copy(want, chunk)
+	out, in := &zzCap5{}, &zzCap5{}
+	f := &TrzszFilter{clientOut: out, serverIn: in}
+	f.options.EnableZmodem = verifNondetBool()
+	var drag atomic.Bool
+	cut := verifNondetRange(1, l)
+	f.sendInput(chunk[:cut], &drag)
+	if cut < l {
+		f.sendInput(chunk[cut:], &drag)
+	}
+	zzSame5(in.got, want, "to remote")
+	verifAssert(len(out.got) == 0, "typed input echoed locally by the wrapper")
+	verifReach("input")
 }
